@@ -2368,6 +2368,16 @@ def BHJM_cylinder_segment(
     h = abs(h)
     z1, z2 = -h / 2, h / 2
 
+    # section angles are periodic: bring them into [-360, 360], the range that the
+    # inside and surface masks below cover with the two aliases of the observer angle
+    turns = np.where(
+        phi2 > 360,
+        np.ceil((phi2 - 360) / 360),
+        np.where(phi1 < -360, -np.ceil((-360 - phi1) / 360), 0),
+    )
+    phi1 = phi1 - 360 * turns
+    phi2 = phi2 - 360 * turns
+
     # transform dim deg->rad
     phi1 = phi1 / 180 * np.pi
     phi2 = phi2 / 180 * np.pi
